@@ -197,7 +197,16 @@ class Checker:
         try:
             n = len(W.UNEXPECTED_CLASSES)
             start = sum(map(ord, dumps(case, sort_keys=True))) % n       # 8 consecutive classes per case, rotating over cases
-            for salt in [(start + i) % n for i in range(n if self.ctx.tier == "thorough" else 8)]:
+            salts = [(start + i) % n for i in range(n if self.ctx.tier == "thorough" else 5)]
+            # the classes that are not ordinary Exceptions always reach the first failing position
+            first = next((p for p, (f, fo) in sorted(W.outcome_table(case).items(), key=lambda kv: str(kv[0])) if fo["r"] == "exc"), None)
+            if first is not None:
+                h = sum(map(ord, str(first)))
+                for cls in (W.Fatal, StopIteration, StopAsyncIteration):
+                    salt = (W.UNEXPECTED_CLASSES.index(cls) - h) % n
+                    if salt not in salts:
+                        salts.append(salt)
+            for salt in salts:
                 W.CLASS_SALT = salt
                 ref = W.run_blocking(case)
                 for config, obs in (("generic-blocking", W.run_blocking(case, generic=True)),
@@ -212,6 +221,7 @@ class Checker:
                     if bad:
                         cls = sorted({type(W.make_unexpected(p)).__name__ for p, (f, fo) in W.outcome_table(case).items() if fo["r"] == "exc"})
                         out.append((bad[0], config, obs.get("choices", []), "%s [unexpected exception classes: %s]" % (bad[1], ",".join(cls))))
+                        self.failing_salt = salt          # shrinking / confirmation must use the same classes
                         return out
         finally:
             W.CLASS_SALT = old
@@ -307,6 +317,14 @@ class Checker:
         return len(new) >= 3
 
     def check(self, case, rng=None):
+        self.failing_salt = None
+        old_salt = W.CLASS_SALT
+        try:
+            return self._check(case, rng)
+        finally:
+            W.CLASS_SALT = old_salt
+
+    def _check(self, case, rng=None):
         ctx = self.ctx
         if self.enough():
             return True
@@ -315,6 +333,8 @@ class Checker:
         fails = self.failures_of(case, rng, collect_model=True)
         if not fails:
             return True
+        if self.failing_salt is not None:
+            W.CLASS_SALT = self.failing_salt
         what, config = fails[0][0], fails[0][1]
         ORPH = "completion-raises-after-sub-resolvers"
         if ORPH in W.features(case):
@@ -565,7 +585,9 @@ def real_pool_stage(ctx, prop, extra_oracle=None, n_random=4, kinds=None):
                              "real pool with %d worker(s): no result within 4 s (a worker is blocked / the result future is never set)" % workers,
                              detail)
                     continue
-                except Exception as err:  # noqa
+                except BaseException as err:  # noqa
+                    if isinstance(err, (W.Watchdog, KeyboardInterrupt)):
+                        raise
                     obs = W.obs_of_result(w, exc=err, status="failed")
                 ran += 1
                 ctx.count()
@@ -754,6 +776,20 @@ def _r_wrap_callable_kw(root, ctx, info, **kw):
     return info.runtime.wrap_callable(_plain_kw)(2, key=5, only=1)
 
 
+def _r_stop(root, ctx, info, **kw):
+    return next(x for x in () if x)          # the classic lookup bug: StopIteration out of a plain resolver
+
+
+def _r_stop_submit(root, ctx, info, **kw):
+    return info.runtime.submit(next, iter(()))
+
+
+def _r_fatal(root, ctx, info, **kw):
+    import time
+    time.sleep(0.02)          # still running when the executor attaches its callbacks (on a pool)
+    raise W.Fatal("not an Exception")
+
+
 def _r_submit_all_kw(root, ctx, info, **kw):
     return info.runtime.submit(_plain_kw, x=4, key=2)
 
@@ -783,13 +819,14 @@ def _r_plain(root, ctx, info, **kw):
     return 1
 
 
-RUNTIME_API_SDL = ("type Query { s: Int f: Int w: Int c: Int g: Int p: Int k: Int e: Int d: Int a: Int o: O } "
-                   "type O { s: Int f: Int w: Int c: Int g: Int p: Int k: Int e: Int d: Int a: Int } "
-                   "type Mutation { s: Int f: Int w: Int c: Int g: Int p: Int k: Int e: Int d: Int a: Int }")
+RUNTIME_API_SDL = ("type Query { s: Int f: Int w: Int c: Int g: Int p: Int k: Int e: Int d: Int a: Int t: Int u: Int x: Int o: O } "
+                   "type O { s: Int f: Int w: Int c: Int g: Int p: Int k: Int e: Int d: Int a: Int t: Int u: Int x: Int } "
+                   "type Mutation { s: Int f: Int w: Int c: Int g: Int p: Int k: Int e: Int d: Int a: Int t: Int u: Int x: Int }")
 RUNTIME_API_QUERIES = (
     "{ s }", "{ f }", "{ w }", "{ c }", "{ g }", "{ p s f w c g }", "{ o { s f w c g p } p }", "{ o { f } s o2: o { s w } }",
     "mutation { s f w }", "mutation { f p c g s }", "mutation { ...T } fragment T on Mutation { w f s }",
     "{ k }", "{ e }", "{ d }", "{ a }", "{ k e d a }", "{ o { k e d a } s }", "mutation { k e d a }",
+    "{ t }", "{ o { t } p }", "{ u }", "{ x }", "mutation { p x }",
 )
 
 
@@ -810,7 +847,8 @@ def runtime_api_stream(ctx):
 
     schema = build_schema(RUNTIME_API_SDL)
     table = {"s": _r_submit, "f": _r_submit_fail, "w": _r_wrapped, "c": _r_wrap_callable, "g": _r_gather, "p": _r_plain,
-             "k": _r_submit_kw, "e": _r_submit_kw_fail, "d": _r_wrap_callable_kw, "a": _r_submit_all_kw}
+             "k": _r_submit_kw, "e": _r_submit_kw_fail, "d": _r_wrap_callable_kw, "a": _r_submit_all_kw,
+             "t": _r_stop, "u": _r_stop_submit, "x": _r_fatal}
     for tname in ("Query", "O", "Mutation"):
         for fname, fn in table.items():
             schema.register_resolver(tname, fname, fn)
@@ -820,6 +858,8 @@ def runtime_api_stream(ctx):
         return ["ok", dumps(res.data), W.canon_errors(res.errors)]
 
     def failed(err):
+        if isinstance(err, RuntimeError) and isinstance(err.__cause__, StopIteration):
+            return ["failed", "StopIteration"]          # PEP 479: the same exception after crossing a coroutine
         return ["failed", type(err).__name__]
 
     def on_loop(make_coro, timeout):
@@ -828,7 +868,9 @@ def runtime_api_stream(ctx):
             return canon(loop.run_until_complete(asyncio.wait_for(make_coro(), timeout)))
         except asyncio.TimeoutError:
             return ["timeout"]
-        except Exception as err:  # noqa
+        except BaseException as err:  # noqa
+            if isinstance(err, (W.Watchdog, KeyboardInterrupt)):
+                raise
             return failed(err)
 
     def run_cfg(cfg, query, timeout):
@@ -855,7 +897,9 @@ def runtime_api_stream(ctx):
                     rt._inner.shutdown(wait=False, cancel_futures=True)
                 except TypeError:
                     rt._inner.shutdown(wait=False)
-        except Exception as err:  # noqa
+        except BaseException as err:  # noqa
+            if isinstance(err, (W.Watchdog, KeyboardInterrupt)):
+                raise
             return failed(err)
 
     n = 0
@@ -865,15 +909,15 @@ def runtime_api_stream(ctx):
         ref = run_cfg("blocking", query, 5)
         ctx.stat("runtime-api:" + ref[0])
         for cfg in ("generic-blocking", "asyncio-graphql()", "asyncio-inline", "threadpool-real-w2"):
-            got = run_cfg(cfg, query, 5)
+            got = run_cfg(cfg, query, 4)
             if got == ["timeout"]:
-                got = run_cfg(cfg, query, 30)          # wall-clock: confirm before reporting
+                got = run_cfg(cfg, query, 12)          # wall-clock: confirm before reporting
                 if got != ["timeout"]:
                     ctx.stat("watchdog-unconfirmed")
             ctx.count()
             n += 1
             if got != ref:
-                ctx.fail("c08:runtime-api:%s:%s-vs-%s:%s" % (cfg, ref[0], got[0], "+".join(sorted(set(c for c in query if c in "sfwcgpokeda")))),
+                ctx.fail("c08:runtime-api:%s:%s-vs-%s:%s" % (cfg, ref[0], got[0], "+".join(sorted(set(c for c in query if c in "sfwcgpokedatux")))),
                          "runtime API used inside plain resolvers: %s gives %s, BlockingExecutor gives %s" % (cfg, got, ref),
                          {"query": query, "config": cfg, "blocking": ref, "got": got, "stream": "runtime-api"})
     ctx.extra["runtime_api_runs"] = n
@@ -1201,6 +1245,199 @@ def probe_generator_history(ctx, first):
         ctx.later("C08-generator-history:%s" % query, (lambda q=query: run(q)), expected[query], {"query": query, "first": first})
 
 
+def probe_deep_nesting(ctx, depths=(20, 60, 80)):
+    """
+    NAMED PROBE (hunt2 C08/3): a valid `{o{o{...{x}...}}}` nested `d` levels (lists of non-null objects) that BlockingExecutor
+    answers must COMPLETE - with the same data - on every runtime (hard timeout, confirmed once). On the thread pool every
+    combinator settles its outer future from inside the inner done-callback: completion nests on the stack and past the recursion
+    limit the RecursionError is swallowed by `Future._invoke_callbacks`.
+    """
+    import asyncio
+    import concurrent.futures
+    import sys
+    import time
+    from py_gql import build_schema, process_graphql_query
+    from py_gql.execution import BlockingExecutor, Executor
+    from py_gql.execution.runtime import AsyncIORuntime, BlockingRuntime, ThreadPoolRuntime
+    schema = build_schema("type Query { o: [O!]! } type O { o: [O!]! x: Int! }")
+
+    def res_o(root, c, info):
+        time.sleep(0.001)
+        return [{"x": 1}]
+
+    async def ares_o(root, c, info):
+        await asyncio.sleep(0)
+        return [{"x": 1}]
+
+    def set_resolvers(fn):
+        schema.register_resolver("Query", "o", fn, allow_override=True)
+        schema.register_resolver("O", "o", fn, allow_override=True)
+
+    def query(d):
+        return "{ " + "o { " * d + "x" + " }" * d + " }"
+
+    def canon(fn):
+        try:
+            r = fn()
+            return ["ok", dumps(r.data), len(r.errors)]
+        except (asyncio.TimeoutError, concurrent.futures.TimeoutError):
+            return ["never-completes"]
+        except RecursionError:
+            return ["RecursionError"]
+        except Exception as err:  # noqa
+            return ["failed", type(err).__name__]
+
+    def run(cfg, d, timeout):
+        q = query(d)
+        if cfg == "asyncio-coroutine-resolvers":
+            set_resolvers(ares_o)
+            loop = W.private_loop()
+
+            async def main():
+                return await process_graphql_query(schema, q, runtime=AsyncIORuntime(), executor_cls=Executor)
+            return canon(lambda: loop.run_until_complete(asyncio.wait_for(main(), timeout)))
+        set_resolvers(res_o)
+        if cfg == "blocking":
+            return canon(lambda: process_graphql_query(schema, q, runtime=BlockingRuntime(), executor_cls=BlockingExecutor))
+        if cfg == "generic-blocking":
+            return canon(lambda: process_graphql_query(schema, q, runtime=BlockingRuntime(), executor_cls=Executor))
+        rt = ThreadPoolRuntime(max_workers=2)
+        try:
+            return canon(lambda: process_graphql_query(schema, q, runtime=rt, executor_cls=Executor).result(timeout=timeout))
+        finally:
+            try:
+                rt._inner.shutdown(wait=False, cancel_futures=True)
+            except TypeError:
+                rt._inner.shutdown(wait=False)
+
+    for cfg in ("generic-blocking", "asyncio-coroutine-resolvers", "threadpool-real-w2"):
+        for d in depths:
+            ref = run("blocking", d, 3)
+            if ref[0] != "ok":
+                break
+            got = run(cfg, d, 3)
+            if got == ["never-completes"]:
+                got = run(cfg, d, 7)
+            ctx.count()
+            ctx.stat("probe:deep-nesting:%s:%d:%s" % (cfg, d, got[0]))
+            if got != ref:
+                ctx.fail("c08:deep-nesting:%s:%s" % (cfg, got[0]),
+                         "a valid query nested %d levels that BlockingExecutor answers: %s gives %s (recursion limit %d; first failing depth "
+                         "among %s)" % (d, cfg, got[:2], sys.getrecursionlimit(), list(depths)),
+                         {"probe": "deep-nesting", "config": cfg, "depth": d, "got": got[:2]})
+                break
+
+
+def abort_order_stage(ctx):
+    """
+    (hunt2 C08/2) `{ a b }`, both deferred, each either ABORTING the request (resolver raises ExecutionError -> data-null response),
+    raising an unexpected exception, or fine; BOTH completion orders under the controlled thread pool and asyncio. The outcome
+    (response with WHICH error / failure) must be BlockingExecutor's whatever completes first.
+    """
+    import asyncio
+    from concurrent.futures import Future
+    from py_gql import build_schema, process_graphql_query
+    from py_gql.exc import ExecutionError
+    from py_gql.execution import BlockingExecutor, Executor
+    from py_gql.execution.runtime import AsyncIORuntime, BlockingRuntime, ThreadPoolRuntime
+    kinds = {"abort": lambda name: ExecutionError("abort-" + name), "unexpected": lambda name: KeyError("unexpected-" + name), "ok": None}
+
+    def canon(fn):
+        try:
+            r = fn()
+            return ["response", dumps(r.data), sorted(str(e) for e in r.errors)]
+        except BaseException as err:  # noqa
+            if isinstance(err, (W.Watchdog, KeyboardInterrupt)):
+                raise
+            return ["raises", type(err).__name__, str(err)]
+
+    for ka in ("abort", "unexpected", "ok"):
+        for kb in ("abort", "unexpected"):
+            if (ka, kb) in (("ok", "unexpected"), ("unexpected", "unexpected")):
+                continue
+
+            def outcome(name, kind):
+                mk = kinds[kind]
+                if mk is None:
+                    return 1
+                raise mk(name)
+
+            def blocking():
+                schema = build_schema("type Query { a: Int b: Int }")
+                schema.register_resolver("Query", "a", lambda *x, **k: outcome("a", ka))
+                schema.register_resolver("Query", "b", lambda *x, **k: outcome("b", kb))
+                return process_graphql_query(schema, "{ a b }", runtime=BlockingRuntime(), executor_cls=BlockingExecutor)
+            ref = canon(blocking)
+            for order in ((0, 1), (1, 0)):
+                # thread pool, manual executor
+                def pool():
+                    class _W:
+                        table, trace = {}, []
+
+                        def ev(self, *a):
+                            pass
+                    w = _W()
+                    w.queue = []
+                    schema = build_schema("type Query { a: Int b: Int }")
+                    schema.register_resolver("Query", "a", lambda *x, **k: outcome("a", ka))
+                    schema.register_resolver("Query", "b", lambda *x, **k: outcome("b", kb))
+                    rt = ThreadPoolRuntime(max_workers=1)
+                    rt._inner.shutdown(wait=False)
+                    rt._inner = W.ManualExecutor(w)
+                    fut = process_graphql_query(schema, "{ a b }", runtime=rt, executor_cls=Executor)
+                    entries = list(w.queue)
+                    for i in order:
+                        e = entries[i]
+                        if e.fut.done():
+                            continue
+                        try:
+                            r = e.fn(*e.args, **e.kwargs)
+                        except BaseException as err:  # noqa
+                            e.fut.set_exception(err)
+                        else:
+                            e.fut.set_result(r)
+                    if not fut.done():
+                        raise TimeoutError("pending")
+                    return fut.result()
+
+                def aio():
+                    loop = W.private_loop()
+                    gates = {}
+                    schema = build_schema("type Query { a: Int b: Int }")
+
+                    def mk(name, kind):
+                        async def r(*x, **k):
+                            gates[name] = loop.create_future()
+                            await gates[name]
+                            return outcome(name, kind)
+                        return r
+                    schema.register_resolver("Query", "a", mk("a", ka))
+                    schema.register_resolver("Query", "b", mk("b", kb))
+
+                    async def main():
+                        rt = AsyncIORuntime(execute_blocking_functions_in_thread=False)
+                        task = asyncio.ensure_future(process_graphql_query(schema, "{ a b }", runtime=rt, executor_cls=Executor))
+                        for _ in range(5):
+                            await asyncio.sleep(0)
+                        for i in order:
+                            g = gates.get("ab"[i])
+                            if g is not None and not g.done():
+                                g.set_result(None)
+                            for _ in range(10):
+                                await asyncio.sleep(0)
+                        return await asyncio.wait_for(task, 10)
+                    return loop.run_until_complete(main())
+
+                for cfg, fn in (("threadpool", pool), ("asyncio", aio)):
+                    got = canon(fn)
+                    ctx.count()
+                    if got != ref:
+                        ctx.fail("c08:abort-order:%s:%s+%s" % (cfg, ka, kb),
+                                 "`{ a b }` with a=%s, b=%s, completion order %s: %s gives %s, BlockingExecutor gives %s"
+                                 % (ka, kb, "".join("ab"[i] for i in order), cfg, got, ref),
+                                 {"stream": "abort-order", "a": ka, "b": kb, "order": list(order), "config": cfg, "blocking": ref, "got": got})
+
+
 # ---------------------------------------------------------------------------
 # abandoned resolvers under graphql()'s default AsyncIORuntime (thread off-loading on)
 
@@ -1260,7 +1497,9 @@ def abandoned_stage(ctx, prop):
             obs = W.obs_of_result(w, result=res, status="ok")
         except asyncio.TimeoutError:
             obs = W.obs_of_result(w, status="pending")
-        except Exception as err:  # noqa
+        except BaseException as err:  # noqa
+            if isinstance(err, (W.Watchdog, KeyboardInterrupt)):
+                raise
             obs = W.obs_of_result(w, exc=err, status="failed")
         ctx.count()
         n += 1
@@ -1299,6 +1538,8 @@ def run(ctx):
         history_stream(ctx, "C08")
         probe_many_root_fields(ctx, "C08", kinds=("query",))
         probe_resolver_raises_execution_error(ctx)
+        probe_deep_nesting(ctx)
+        abort_order_stage(ctx)
     finally:
         W.close_private_loop()
     ctx.extra["configurations"] = list(CONFIGS)
@@ -1313,10 +1554,19 @@ def replay(ctx, data):
         try:
             if inp["probe"] == "many-root-fields":
                 probe_many_root_fields(ctx, "C08", kinds=(inp.get("kind", "query"),))
+            elif inp["probe"] == "deep-nesting":
+                probe_deep_nesting(ctx)
             elif inp["probe"] == "generator-history":
                 probe_generator_history(ctx, inp.get("first", "one"))
             else:
                 probe_resolver_raises_execution_error(ctx)
+        finally:
+            W.close_private_loop()
+        return len(ctx.found) == before
+    if inp.get("stream") == "abort-order":
+        before = len(ctx.found)
+        try:
+            abort_order_stage(ctx)
         finally:
             W.close_private_loop()
         return len(ctx.found) == before
